@@ -145,7 +145,7 @@ var xmlNames = []string{"a", "b", "c", "d", "A", "B", "item", "Item", "x-y", "x_
 var nsPrefixes = []string{"", "", "", "ns", "p", "n-s"}
 
 // hostile value alphabet (section 3.1 of DESIGN.md); no carriage return
-var textAlphabet = []string{"a", "b", "Z", "1", "0", ".", "-", "+", "e", " ", " ", "\t", "\n", "&", "<", ">", "\"", "'", "é", "世",
+var textAlphabet = []string{"a", "b", "Z", "1", "0", ".", "-", "+", "e", " ", " ", "\t", "\n", "&", "<", ">", "\"", "'", "é", "世", "> <", ">\n <",
 	"true", "false", "TRUE", "t", "NaN", "Inf", "1.5", "1e3", "0x1p-2", "&amp;", "&#x41;", "&lt;", "]]>", "]]", "<![CDATA[", "#", ":", "{", "}", "[", "]", "\\", "\\u003c", "=", "/", "<!--", "?>", "\u00a0", "\u3000", "\u2003", "\u0085", "\u00a0",
 	"\U0001F600", "e\u0301", "\u2028", "\u2029", "\ufeff", "\U00010000", "\ufffd",
 	"%", "%d", "%s", "%%", "100%", "%!", "&nbsp;"[:0] + "nbsp"}
@@ -263,11 +263,11 @@ func (g XGen) genAttrs(t *rapid.T, e *XElem) {
 func (g XGen) genExtra(t *rapid.T, kind int) XItem {
 	switch kind {
 	case kComment:
-		return XItem{Kind: kComment, Text: rapid.SampledFrom([]string{" c ", "note", "a < b & c", " x=\"1\" ", ""}).Draw(t, "comment")}
+		return XItem{Kind: kComment, Text: rapid.SampledFrom([]string{" c ", "note", "a < b & c", " x=\"1\" ", "", " <a>1</a> <b>2</b> ", "x>\n<y"}).Draw(t, "comment")}
 	case kProcInst:
-		return XItem{Kind: kProcInst, Text: rapid.SampledFrom([]string{"pi a=\"1\"", "target some instruction", "php echo 1;", "t", "xml-stylesheet href=\"a.xsl\"", "xml-model x", "xmlfoo y", "x-xml z"}).Draw(t, "pi")}
+		return XItem{Kind: kProcInst, Text: rapid.SampledFrom([]string{"pi a=\"1\"", "target some instruction", "php echo 1;", "t", "xml-stylesheet href=\"a.xsl\"", "xml-model x", "xmlfoo y", "x-xml z", "render wrap=\"<i> <b>\""}).Draw(t, "pi")}
 	}
-	return XItem{Kind: kDirective, Text: rapid.SampledFrom([]string{"DOCTYPE a", "ENTITY x \"y\"", "DIRECTIVE text here"}).Draw(t, "dir")}
+	return XItem{Kind: kDirective, Text: rapid.SampledFrom([]string{"DOCTYPE a", "ENTITY x \"y\"", "DIRECTIVE text here", "DOCTYPE doc [<!ENTITY x \"1\"> <!ENTITY y \"2\">]"}).Draw(t, "dir")}
 }
 
 func (g XGen) Elem(t *rapid.T, depth int) *XElem {
